@@ -408,7 +408,7 @@ func (g *c17Gen) genBasic(pool []int, mayBeBad bool) c17Act {
 			id = g.queue[r.Intn(len(g.queue))].id
 		case d < 14:
 			id = g.maxID + 1 + uint64(r.Intn(2))
-		case d < 15:
+		case d < 15 && mayBeBad:
 			id = 0
 			bad = true // MsgDestroyTriggerRequest.ValidateBasic
 		default:
